@@ -20,6 +20,7 @@ RULE = ("(kernel) generated parameters for Binary/Purification RBMs (n 1..4, nh 
 RULE_EXT = ('Extended as built: the start state seen by the kernel is learned from a spy on gibbs_steps; results of earlier calls are held and re-verified after later calls; float32 start states; default start must be random and of the right shape; effective_energy(v, a) with explicit auxiliary units. Rounds 5-6: the public sample_h_given_v / sample_v_given_h / sample_a_given_v / sample_v_given_ha called directly without and with out= under the scripted Bernoulli monitor; num_aux = 0.')
 RULE_EXT += ' Round 10 (after an exception / long time axis): histories with refused sample() calls (wrong width, non-integer k, read-only start with overwrite; caught) and chains of 16-37 steps; empirical law for k up to 200 on slowly mixing networks (label law_after_16_steps_differs).'
 RULE_EXT += " Start states that are views into a larger tensor of the caller (every second column, a transposed block): with overwrite=True exactly the viewed elements hold the final chain states, the view keeps its geometry, the other elements are untouched."
+RULE_EXT += ' Round 11 (re-entrant use / feature interactions): op inside_fit: sample(2, start) from inside the callbacks of a running fit under the draw monitor, every draw against the conditionals of the parameters of that moment.'
 RULE = RULE + " " + RULE_EXT
 ASSUMPTIONS = ["(history) the implementation draws through torch.bernoulli; if the monitor sees no call for k>0 it declares itself "
                "inapplicable instead of raising", "(empirical) power limited to deviations >= ~3% in some state probability",
@@ -203,7 +204,7 @@ def histories(draw, tier):
     ops = []
     m_fixed = draw(st.integers(1, 3))
     for _ in range(draw(st.integers(1, 8))):
-        kind = draw(st.sampled_from(["fresh", "start", "continue", "continue", "reparam", "reinit_reparam", "other_object", "refused"]))
+        kind = draw(st.sampled_from(["fresh", "start", "continue", "continue", "reparam", "reinit_reparam", "other_object", "refused", "inside_fit"]))
         op = {"op": kind}
         if kind == "refused":
             op["how"] = draw(st.sampled_from(["width", "width", "k_not_integer", "readonly_overwrite"]))
@@ -218,6 +219,39 @@ def histories(draw, tier):
         ops.append(op)
     us = draw(st.lists(st.floats(0, 1, exclude_max=True, allow_nan=False, width=64), min_size=8, max_size=48))
     return {"state": sc, "alt": alt, "ops": ops, "us": us}
+
+
+def walk_steps(sc, am, cur, calls, k, bucket):
+    """the monitored draws `calls` of k Gibbs steps from the visible states `cur` against the reference conditionals of the parameters `am`
+    -> final visible states"""
+    n = sc["n"]
+    per = 3 if sc["type"] == "density" else 2
+    require(len(calls) == per * k, bucket + ":draw-count", f"{k} Gibbs step(s): saw {len(calls)} draws, expected {per * k}")
+    i = 0
+    for s in range(k):
+        ph, pa = ref_latent_probs(sc, am, cur)
+        if sc["type"] == "density":
+            (p1, d1), (p2, d2) = calls[i], calls[i + 1]
+            p1, p2 = p1.reshape(cur.shape[0], -1), p2.reshape(cur.shape[0], -1)
+            if eq(p1, ph) and eq(p2, pa):
+                h, a = d1, d2
+            elif eq(p1, pa) and eq(p2, ph):
+                h, a = d2, d1
+            else:
+                require(False, bucket + ":latent-conditional", f"step {s}: latent draws are not from p(h|v_cur), p(a|v_cur) of the CURRENT parameters", got=[p1.tolist(), p2.tolist()], ref=[ph.tolist(), pa.tolist()])
+            h, a = h.reshape(cur.shape[0], -1), a.reshape(cur.shape[0], -1)
+            i += 2
+        else:
+            p1, d1 = calls[i]
+            require(eq(p1.reshape(cur.shape[0], -1), ph), bucket + ":latent-conditional", f"step {s}: hidden draw is not from p(h|v_cur) of the CURRENT parameters", got=p1.tolist(), ref=ph.tolist())
+            h, a = d1.reshape(cur.shape[0], -1), None
+            i += 1
+        pv = ref_visible_probs(sc, am, h, a)
+        p3, d3 = calls[i]
+        require(eq(p3.reshape(cur.shape[0], -1), pv), bucket + ":visible-conditional", f"step {s}: visible draw is not from p(v|h[,a]) of the CURRENT parameters", got=p3.tolist(), ref=pv.tolist())
+        cur = d3.reshape(cur.shape[0], -1)
+        i += 1
+    return cur
 
 
 def check_history(case):
@@ -253,6 +287,34 @@ def check_history(case):
                 gen.set_net(state.rbm_am, case["alt"])
                 am = R.net_from_case(case["alt"])
                 labels.add("reinitialised")
+                continue
+            if op["op"] == "inside_fit":
+                # re-entrant use: sample() called from INSIDE the callbacks of a running fit (after parameter updates): every draw comes from the
+                # conditionals of the parameters the model has at that moment; afterwards the history goes on with the trained parameters
+                from qucumber.callbacks import LambdaCallback
+                import numpy as _np
+                dat_ = R.rows_from_indices([0, (2 ** n) - 1, 1 % (2 ** n)], n)
+                start_ = R.rows_from_indices([(2 ** n) - 1, 0], n)
+                found_ = []
+
+                def inside(s_):
+                    am_now = {k_: v_.clone() for k_, v_ in gen.net_of(s_.rbm_am).items()}
+                    i0_ = len(mon.calls)
+                    res_ = s_.sample(2, initial_state=start_.clone())
+                    try:
+                        end_ = walk_steps(sc, am_now, start_.double(), mon.calls[i0_:], 2, "inside-fit-callback")
+                        require(torch.equal(res_.double(), end_), "inside-fit-callback:result", "sample() inside a callback did not return the last visible draw")
+                    except Exception as ex_:          # raised after the fit (an exception inside a callback would abort the run)
+                        found_.append(ex_)
+                state.fit(dat_, epochs=2, pos_batch_size=2, k=1, lr=0.1, callbacks=[LambdaCallback(on_batch_end=lambda s_, e_, b_: inside(s_), on_epoch_start=lambda s_, e_: inside(s_))],
+                          **({} if sc["type"] == "positive" else {"input_bases": _np.array([["Z"] * n] * 3)}))
+                state.stop_training = False
+                if found_:
+                    raise found_[0]
+                am = {k_: v_.clone() for k_, v_ in gen.net_of(state.rbm_am).items()}
+                if not all(bool(torch.isfinite(v_).all()) for v_ in am.values()):
+                    return {"nontrivial": False, "excluded": 1, "labels": ["diverged"]}
+                labels.add("sampled_inside_fit")
                 continue
             if op["op"] == "refused":
                 # after an exception: a sample() call that fails (start of the wrong width, non-integer k, a start that cannot be overwritten),
